@@ -54,7 +54,18 @@ def write_replay(prop, fn, cfg, ob, do_run=True):
                how_to_rerun="cd /verif && python3-vt -m pyvc.replay " + os.path.relpath(path, ROOT))
     confirmed = False
     if do_run:
-        res = run_native(fn, cfg, ob)
+        from pyvc import contract as ct
+        K = ct.REGISTRY.get(fn)
+        if ob.get("backend") == "subprocess-probe":
+            # the obligation *is* an observation of the real interpreter running the real code
+            res = dict(confirmed=True, observed=(ob.get("model") or {}).get("observed"))
+        elif K is not None and hasattr(K, "native_replay"):
+            try:
+                res = K.native_replay(ob, cfg)
+            except Exception as e:  # noqa
+                res = dict(confirmed=False, replay_error="%s: %s" % (type(e).__name__, e))
+        else:
+            res = run_native(fn, cfg, ob)
         rec["replay"] = res
         confirmed = bool(res.get("confirmed"))
     rec["confirmed_on_real_code"] = confirmed
